@@ -460,9 +460,9 @@ def _create_sbml_variables(
         # cpd.setUnit() # FIXME: implement
         if isinstance((init := variable.initial_value), InitialAssignment):
             ar = sbml_model.createInitialAssignment()
-            ar.setId(_convert_id_to_sbml(id_=name, prefix="IA"))
-            ar.setName(_convert_id_to_sbml(id_=name, prefix="IA"))
-            ar.setVariable(_convert_id_to_sbml(id_=name, prefix="IA"))
+            ar.setId(_convert_id_to_sbml(id_=f"IA_{name}", prefix="IA"))
+            ar.setName(_convert_id_to_sbml(id_=f"IA_{name}", prefix="IA"))
+            ar.setSymbol(_convert_id_to_sbml(id_=name, prefix="CPD"))
             ar.setMath(_sbmlify_fn(init.fn, init.args))
         else:
             cpd.setInitialConcentration(float(init))
@@ -511,9 +511,9 @@ def _create_sbml_parameters(
 
         if isinstance((init := value.value), InitialAssignment):
             ar = sbml_model.createInitialAssignment()
-            ar.setId(_convert_id_to_sbml(id_=name, prefix="IA"))
-            ar.setName(_convert_id_to_sbml(id_=name, prefix="IA"))
-            ar.setVariable(_convert_id_to_sbml(id_=name, prefix="IA"))
+            ar.setId(_convert_id_to_sbml(id_=f"IA_{name}", prefix="IA"))
+            ar.setName(_convert_id_to_sbml(id_=f"IA_{name}", prefix="IA"))
+            ar.setSymbol(_convert_id_to_sbml(id_=name, prefix="PAR"))
             ar.setMath(_sbmlify_fn(init.fn, init.args))
         else:
             k.setValue(float(init))
